@@ -270,6 +270,19 @@ CHECKS = {
         design_ref="DESIGN.md 5 C08",
         note=NOTE_COMMON + " The convolution with the atomic form factor is checked numerically only (tolerance 5e-5).",
     ),
+    "C01": dict(
+        text=("TLC (a) enumerates the 576 valid scenarios of Pipeline.tla (builder x potential kind x exit planes x detector set x "
+              "scan x CTF application) and (b) explores every interleaving of 4 blocks on 3 workers sharing the per-potential "
+              "integrator cache, checking confluence (assembled result = sequential result) and exactly-once execution.  The "
+              "scenarios (all in thorough, a seeded sample of 45 in quick) are evaluated eagerly and lazily for max_batch {1, 2, "
+              "auto} x scheduler {synchronous, threads(4)}; PipelineTrace.tla decides, per scenario, equal outcome class (both "
+              "succeed or raise the same exception class), type, shape (declared and computed), axes metadata, metadata, values "
+              "within tolerance, an equal number of executed blocks (Block hook) under both schedulers, and that all six "
+              "variants were observed."),
+        technique="TLA+ scenario enumeration + interleaving model of block execution (TLC) + lazy/eager differential runs validated by a TLC trace spec",
+        design_ref="DESIGN.md 5 C01",
+        note=NOTE_COMMON + " The oracle is the eager run of the same code (a change breaking both modes identically is invisible here; C02/C06/C07 compare different code paths); dask's scheduler is trusted; tolerance 5e-5.",
+    ),
 }
 
 NOT_APPLICABLE = {
